@@ -1487,7 +1487,8 @@ SYSTEMATIC_DOC = (
     "stream referenced by a pooled parser and a pre-emption at EVERY traced event of the "
     "second op, after which another client re-uses that parser (prompt close in another "
     "thread); (C) two clients calling a shorthand, client 0 pre-empted at EVERY traced "
-    "event of its call while client 1 runs a complete call; (D) client 0 pre-empted at every "
+    "event of its call while client 1 runs a complete call (C2: of the repetition of a call "
+    "it already completed once); (D) client 0 pre-empted at every "
     "tick of the 40-tick window in which the stale stream of its own earlier abort is "
     "finalised by parser re-use x client 1 pre-empted at every token-action tick of its own "
     "tokenisation, after which client 0 finishes the finalisation; (E) the same two-"
@@ -1528,7 +1529,7 @@ def systematic_jobs(seed, tier):
     if tier == "thorough":
         pairs = list(range(len(SYS_PAIRS)))
         nsl = 4
-        fams = ["A", "B", "C", "Apartial"]
+        fams = ["A", "B", "C", "C2", "Apartial"]
         jobs = [{"family": f, "pair": p, "slice": s, "nslices": nsl}
                 for f in fams for p in pairs for s in range(nsl)]
         # opcode granularity has about five times as many positions: three pairs
@@ -1542,7 +1543,7 @@ def systematic_jobs(seed, tier):
     nsl = 6
     pair = seed % len(SYS_PAIRS_QUICK)
     jobs = [{"family": f, "pair": pair, "slice": s, "nslices": nsl, "quick": True}
-            for f in ("A", "B", "C") for s in range(nsl)]
+            for f in ("A", "B", "C", "C2") for s in range(nsl)]
     # D is two-dimensional: quick takes every fifth combination (offset by the seed)
     jobs += [{"family": "D", "pair": pair, "slice": (seed + 5 * s) % 30, "nslices": 30,
               "quick": True} for s in range(nsl)]
@@ -1629,16 +1630,25 @@ def systematic_plans(seed, spec):
                 "clients": [{"ops": [dict(o0), dict(o1)]}, {"ops": [dict(b0)]}],
                 "points": [{"op": "c0o1", "at": k, "kind": "preempt", "to": 1, "ord": 0},
                            {"op": "c1o0", "at": a, "kind": "preempt", "to": 0, "ord": 1}]})
-    elif fam == "C":
+    elif fam in ("C", "C2"):
+        # C: client 0's first shorthand call pre-empted at every tick while client 1 makes
+        # a complete call.  C2: client 0 first completes the same call once (so whatever
+        # the library remembers about "the last filter" is in place), then repeats it and
+        # is pre-empted at every tick of the repetition.
         kinds = ["sa_core", "sa_orm", "django"]
-        ka, kb = kinds[pi % 3], kinds[(pi // 3) % 3]
+        ka = kinds[pi % 3]
+        kb = ka if fam == "C2" else kinds[(pi // 3) % 3]
         a0 = {"id": "c0o0", "kind": ka, "text": good, "linger": False}
+        a1 = {"id": "c0o1", "kind": ka, "text": good, "linger": False}
         b0 = {"id": "c1o0", "kind": kb, "text": bad if pi % 2 else "title eq 'x' and rating gt 1",
               "linger": False}
         n, _ = dry.get(a0, False)
+        ops0 = [dict(a0)] if fam == "C" else [dict(a0), dict(a1)]
+        target = "c0o0" if fam == "C" else "c0o1"
         for k in range(1 + spec["slice"], n + 1, spec["nslices"]):
-            yield ("sysC-p%d-k%d" % (pi, k), {
-                "property": "C20", "seed": seed, "run": "sysC-p%d-k%d" % (pi, k),
+            label = "sys%s-p%d-k%d" % (fam, pi, k)
+            yield (label, {
+                "property": "C20", "seed": seed, "run": label,
                 "granularity": "line", "n_lexers": 1, "n_parsers": 1, "start": 0,
-                "clients": [{"ops": [dict(a0)]}, {"ops": [dict(b0)]}],
-                "points": [{"op": "c0o0", "at": k, "kind": "preempt", "to": 1, "ord": 0}]})
+                "clients": [{"ops": ops0}, {"ops": [dict(b0)]}],
+                "points": [{"op": target, "at": k, "kind": "preempt", "to": 1, "ord": 0}]})
